@@ -13,3 +13,5 @@ import SparseV.Props.C03
 #print axioms SparseV.C03.reduce_max_get
 #print axioms SparseV.C03.reduce_min_get
 #print axioms SparseV.C03.reduce_src_spec
+#print axioms SparseV.C03.reduce_empty_axis_rejected
+#print axioms SparseV.C03.reduce_empty_axis_rejected_none
